@@ -5,7 +5,7 @@
 EXTENDS Prune, Json, Randomization
 CONSTANTS K
 
-Combos == {<<"i", "-">>, <<"s", "-">>, <<"b", "-">>, <<"i", "i">>, <<"i", "s">>, <<"s", "b">>, <<"i", "b">>, <<"s", "i">>}
+Combos == {<<"i", "-">>, <<"s", "-">>, <<"b", "-">>, <<"i", "i">>, <<"i", "s">>, <<"s", "b">>, <<"i", "b">>, <<"s", "i">>, <<"s", "s">>, <<"b", "b">>}
 Rows(t) == IF t[2] = "-" THEN Dom(t[1]) \X {Null} ELSE Dom(t[1]) \X Dom(t[2])
 VARIABLES c, ty
 Init == \E t \in Combos : \E n \in 0..MAXN : ty = t /\ c \in RandomSubset(K, [1..n -> Rows(t)])
